@@ -57,4 +57,56 @@ theorem attrInsert_seq (elems : List Nat) (i : Int) (v : Nat) :
       = Capella.CoupledList.attrInsert elems i v := by
   simp [Capella.CoupledList.attrInsert, Capella.CoupledList.pyInsert, Capella.CoupledList.normIndex, pySliceBound]
 
+/-- which members a whole-list / item / slice assignment drops: exactly the members whose own element is not among
+the assigned values -/
+theorem mem_setDropped (lst : List Nat) (values : List Val) (v : Nat) :
+    v ∈ setDropped lst values ↔ v ∈ lst ∧ ¬ (∃ w ∈ values, w = Val.elem v) := by
+  unfold setDropped setKeep
+  rw [List.mem_filter]
+  constructor
+  · rintro ⟨h1, h2⟩
+    refine ⟨h1, ?_⟩
+    rintro ⟨w, hw, rfl⟩
+    have : v ∈ values.filterMap (fun v => match v with | .elem n => some n | _ => none) :=
+      List.mem_filterMap.mpr ⟨_, hw, rfl⟩
+    simp only [Bool.not_eq_eq_eq_not, Bool.not_true, List.contains_eq_mem, decide_eq_false_iff_not] at h2
+    exact h2 this
+  · rintro ⟨h1, h2⟩
+    refine ⟨h1, ?_⟩
+    simp only [Bool.not_eq_eq_eq_not, Bool.not_true, List.contains_eq_mem, decide_eq_false_iff_not]
+    intro hm
+    obtain ⟨w, hw, he⟩ := List.mem_filterMap.mp hm
+    apply h2
+    refine ⟨w, hw, ?_⟩
+    cases w <;> simp_all
+
+/-- a slice bound inside the list is taken as it is -/
+theorem pySliceBound_nat (n k : Nat) (h : k ≤ n) : pySliceBound n (k : Int) = k := by
+  unfold pySliceBound
+  have : ¬ ((k : Int) < 0) := by omega
+  rw [if_neg this]
+  simp; omega
+
+/-- Python's `l[0:len(l)] = vs` replaces everything -/
+theorem pySetSlice_whole {α : Type} (l vs : List α) : pySetSlice l 0 l.length vs = vs := by
+  have h0 : pySliceBound l.length (0 : Int) = 0 := pySliceBound_nat l.length 0 (Nat.zero_le _)
+  have h1 : pySliceBound l.length (l.length : Int) = l.length := pySliceBound_nat l.length l.length (Nat.le_refl _)
+  simp [pySetSlice, h0, h1]
+
+/-- Python's `l[k:k+1] = [v]` at a valid position is item assignment -/
+theorem pySetSlice_one {α : Type} (l : List α) (k : Nat) (v : α) (h : k < l.length) :
+    pySetSlice l k (k + 1) [v] = l.set k v := by
+  have h1 : pySliceBound l.length (k : Int) = k := pySliceBound_nat _ _ (Nat.le_of_lt h)
+  have h2 : pySliceBound l.length ((k : Int) + 1) = k + 1 := by
+    have := pySliceBound_nat l.length (k + 1) h
+    simpa using this
+  simp only [pySetSlice, h1, h2]
+  rw [Nat.max_eq_right (Nat.le_succ k), List.set_eq_take_append_cons_drop]
+  simp [h]
+
+/-- Python's `l[i:i] = [v]` is `l.insert(i, v)`, for every integer -/
+theorem pySetSlice_empty_range (l : List Nat) (i : Int) (v : Nat) :
+    pySetSlice l i i [v] = Capella.CoupledList.pyInsert l i v := by
+  simp [pySetSlice, Capella.CoupledList.pyInsert, Capella.CoupledList.normIndex, pySliceBound]
+
 end Capella.Accessor
